@@ -379,7 +379,7 @@ fn c11_strategy(_tier: Tier) -> BoxedStrategy<Case> {
     gen::search_case(SearchOpts {
         prop: "C11",
         cfg: CfgOpts { casei: 2, anchored: 1, ..CfgOpts::default() },
-        pats: PatOpts { w_empty: 4, max_class: 1, long: false, w_shapes: 4, w_adversarial: 0 },
+        pats: PatOpts { w_empty: 4, max_class: 1, long: false, w_shapes: 4, w_adversarial: 0, w_fanout: 0 },
         hay: HayOpts { size_class: 1 },
         full_span_only: false,
         alphabets: vec![(50, gen::ALPHA_CASE), (25, gen::ALPHA_HIGHCASE), (10, gen::ALPHA_TEXT), (8, gen::ALPHA_FULL), (7, gen::ALPHA_NYBBLE)],
@@ -449,7 +449,7 @@ fn c14_strategy(_tier: Tier) -> BoxedStrategy<Case> {
     gen::search_case(SearchOpts {
         prop: "C14",
         cfg: CfgOpts { anchored: 1, casei: 1, ..CfgOpts::default() },
-        pats: PatOpts { w_empty: 5, max_class: 1, long: false, w_shapes: 6, w_adversarial: 1 },
+        pats: PatOpts { w_empty: 5, max_class: 1, long: false, w_shapes: 6, w_adversarial: 1, w_fanout: 0 },
         hay: HayOpts { size_class: 2 },
         full_span_only: false,
         alphabets: gen::default_alphabets(),
